@@ -278,15 +278,17 @@ func (ts *TStateView) Remove(ctx context.Context, key []byte) error {
 		pastAllocates: chunks(ts.allocates, k),
 		pastWrites:    chunks(ts.writes, k),
 	})
-	if _, ok := ts.allocates[k]; ok {
+	if _, ok := ts.allocates[k]; ok && isUnchanged {
 		// If delete after allocating in the same view, it is
 		// as if nothing happened.
 		delete(ts.allocates, k)
 		delete(ts.writes, k)
 		delete(ts.pendingChangedKeys, k)
 	} else {
-		// If this is not a new allocation, we mark as an
-		// explicit delete.
+		// If this is not a new allocation (or the key was deleted and
+		// re-created in this view while it exists underneath), we mark
+		// as an explicit delete.
+		delete(ts.allocates, k)
 		ts.writes[k] = 0
 		ts.pendingChangedKeys[k] = maybe.Nothing[[]byte]()
 	}
